@@ -453,6 +453,60 @@ theorem redirect_target (fs : Fs) (cfg : Config) (f loc : Bytes) (h : main fs cf
     ((indexPath fs cfg f).isSome = true ∨ cfg.listing = true) :=
   main_redirect fs cfg f loc h
 
+/-- "`path` is where the request may legitimately lead": the kernel is handed exactly `path`; it is
+derived from the request (or request + `/` + index file) through the chosen root; with symlink
+checking on it is a `realpath` answer inside that root, with it off it is `root ++ rest` with `rest`
+canonical. -/
+def Confined (fs : Fs) (cfg : Config) (f : Bytes) (path : Path) : Prop :=
+  cstr path = path ∧
+  ∃ req, (req = f ∨ req = f ++ [47] ++ cfg.indexFile) ∧
+    canonical (pickRoot cfg (normalize req)).2 = true ∧
+    (if cfg.checkSymlinks then
+       fs.realpath (cstr ((pickRoot cfg (normalize req)).1 ++ [47] ++ (pickRoot cfg (normalize req)).2)) = some path ∧
+       inside (pickRoot cfg (normalize req)).1 path = true
+     else
+       path = (pickRoot cfg (normalize req)).1 ++
+         (if (pickRoot cfg (normalize req)).2 = [47] then [] else (pickRoot cfg (normalize req)).2))
+
+/-- **file_server_property** — the statement of C13 in one piece, for every HTTP request target,
+every configuration whose roots are `realpath` answers, and every file system obeying the POSIX
+laws: the reply is a 404, a redirect to the request path plus `/`, a listing (only if enabled;
+of a confined directory; rows = non-dot entries, escaped), or the content of a confined
+**regular** file. -/
+theorem file_server_property (fs : Fs) (cfg : Config) (target : Bytes)
+    (hfs : RealpathLaw fs) (hst : StatLaw fs) (hroots : RootsCanonical cfg)
+    (hi : (0 : UInt8) ∉ cfg.indexFile) (hr : (0 : UInt8) ∉ cfg.docRoot ∧ ∀ a ∈ cfg.aliases, (0 : UInt8) ∉ a.2) :
+    match main fs cfg (pathInfoOfTarget target) with
+    | .notFound => True
+    | .redirect loc => loc = pathInfoOfTarget target ++ [47]
+    | .listing url path rows =>
+        cfg.listing = true ∧ Confined fs cfg (pathInfoOfTarget target) path ∧
+        escapedFor (pathInfoOfTarget target) (escape url) = true ∧
+        ∃ names, fs.readdir path = some names ∧
+          ∀ r ∈ rows, r.name ∈ names ∧ r.name.head? ≠ some 46 ∧ escapedFor (r.name ++ r.add) r.text = true
+    | .serve path content =>
+        Confined fs cfg (pathInfoOfTarget target) path ∧ ftype (fs.mode path) = ftReg ∧ fs.read path = some content := by
+  cases hm : main fs cfg (pathInfoOfTarget target) with
+  | notFound => trivial
+  | redirect loc => exact (redirect_target fs cfg _ loc hm).1
+  | listing url path rows =>
+    have hop : openedPath fs cfg (pathInfoOfTarget target) = some path := by simp [openedPath, hm, Outcome.opened]
+    have hc := http_request_confined fs cfg target path hfs hroots hi hr hop
+    obtain ⟨hu, hesc, names, hrd, hrows⟩ := listing_skips_dotfiles_and_escapes fs cfg _ url path rows hm
+    refine ⟨listing_only_when_enabled fs cfg _ url path rows hm, hc, ?_, names, ?_, ?_⟩
+    · rw [← hu]; exact hesc
+    · rw [← hc.1]; exact hrd
+    · intro r hr'
+      obtain ⟨h1, h2, _, h4⟩ := hrows r hr'
+      exact ⟨h1, h2, h4⟩
+  | serve path content =>
+    have hop : openedPath fs cfg (pathInfoOfTarget target) = some path := by simp [openedPath, hm, Outcome.opened]
+    have hc := http_request_confined fs cfg target path hfs hroots hi hr hop
+    have h1 := only_regular_files_streamed_posix fs cfg _ path content hst hm
+    have h2 := (only_regular_files_streamed fs cfg _ path content hm).2
+    rw [hc.1] at h1 h2
+    exact ⟨hc, h1, h2⟩
+
 /-! ### Non-vacuity / sanity instances (tests of the statements' reading, not the theorems) -/
 
 section Examples
@@ -507,6 +561,35 @@ example : RootsCanonical exCfg := by
   simp [exCfg] at ha
   subst ha
   decide +kernel
+-- ... and as the universally quantified laws the headline theorem assumes
+theorem exFs_realpathLaw : RealpathLaw exFs := by
+  intro q r h
+  simp only [exFs] at h
+  repeat (split at h; (· simp only [Option.some.injEq] at h; subst h; decide +kernel))
+  simp at h
+theorem exFs_statLaw : StatLaw exFs := by
+  constructor
+  · intro q
+    simp only [exFs]
+    split
+    · decide
+    · split <;> decide
+  · intro q h
+    simp only [exFs] at h
+    split at h
+    · simp [ftype, ftSock] at h
+    · split at h <;> simp [ftype, ftSock] at h
+-- the headline theorem applies to the example (request `/x/`, alias with index file)
+example : Confined exFs exCfg (pathInfoOfTarget [47,120,47]) [47,116,47,105,110,100,101,120,46,104,116,109,108] := by
+  have h := file_server_property exFs exCfg [47,120,47] exFs_realpathLaw exFs_statLaw
+    (by refine ⟨by decide +kernel, ?_⟩; intro a ha; simp [exCfg] at ha; subst ha; decide +kernel)
+    (by decide +kernel) (by refine ⟨by decide +kernel, ?_⟩; intro a ha; simp [exCfg] at ha; subst ha; decide +kernel)
+  have hm : main exFs exCfg (pathInfoOfTarget [47,120,47]) = .serve [47,116,47,105,110,100,101,120,46,104,116,109,108] [73] := by
+    have : pathInfoOfTarget [47,120,47] = [47,120,47] := by
+      simp [pathInfoOfTarget, urldecode, cstr, Gen.queryCh, Gen.urldecPlus, Gen.urldecPct]
+    rw [this]; decide +kernel
+  rw [hm] at h
+  exact h.1
 -- symlink checking off: the same request for `/l` is accepted lexically (root ++ rest) and the link is followed
 example : main exFs { exCfg with checkSymlinks := false } [47,108] = .serve [47,114,47,108] [83] := by decide +kernel
 example : checkInDocumentRoot exFs { exCfg with checkSymlinks := false } [47,46,46,47,108] = some [47,114,47,108] := by decide +kernel
